@@ -134,6 +134,17 @@ func c11Oracle(p *Plan) *Verdict {
 				v.violate("unframable-body", f, "%s", prob)
 			}
 		}
+		if st.rw != nil && !passthrough && p.RPCs[i].Backend.LateIO {
+			// "writes after completion": a goroutine the handler left behind uses the writer it was given after ServeHTTP
+			// returned. What it does must stop at the transcoder's wrapper: a real HTTP/2 server panics on any call made on its
+			// writer after the handler finished (outside every recover), an HTTP/1 server's buffers already serve the next request.
+			for _, l := range st.rw.Late {
+				f := copyFacts(facts)
+				f["op"] = strings.SplitN(l, "@", 2)[0]
+				v.violate("late-call-reaches-writer", f, "a handler goroutine that outlived ServeHTTP reached the underlying writer through the transcoder's wrapper: %v", st.rw.Late)
+				break
+			}
+		}
 		if len(st.Backend) > 1 {
 			v.violate("double-dispatch", facts, "%d handler invocations for one request", len(st.Backend))
 		}
@@ -203,7 +214,7 @@ func init() {
 				if c.Prob(0.15) {
 					bp.PanicAt = Pick(c, "before-headers", "after-headers", "mid-body")
 				}
-				bp.LateIO = c.Prob(0.1)
+				bp.LateIO = c.Prob(0.2)
 				bp.Mode = Pick(c, "", "", "respond-first", "no-read", "duplex")
 				bp.ReadAfter = c.Bool()
 				if kind == "both" {
